@@ -161,3 +161,86 @@ pub fn env0(vl: &[i64]) -> Vec<(String, Value)> {
         ("vm".to_string(), Value::Map(Map { map: Arc::new(m) })),
     ]
 }
+
+/// C02 "kind table": every operator / built-in / macro form applied to every ordered pair of a pool
+/// holding representatives (and extremes) of every value kind, as context variables a and b.
+pub fn c02_table(seed: u64, thorough: bool, out: &mut dyn Write) -> Stats {
+    use std::sync::Arc;
+    let mut rng = Rng::new(seed);
+    let s = |x: &str| Value::String(Arc::new(x.to_string()));
+    let mut pool: Vec<Value> = vec![
+        Value::Int(0), Value::Int(1), Value::Int(-1), Value::Int(i64::MAX), Value::Int(i64::MIN), Value::UInt(0), Value::UInt(1), Value::UInt(u64::MAX),
+        Value::Float(f64::NAN), Value::Float(f64::INFINITY), Value::Float(-0.0), Value::Float(1.5), Value::Float(1e19), Value::Float(-1e300),
+        s(""), s("a"), s("héllo"), s("日本"), s("🐱x"), s("1h30m"), s("1e13h"), s("9223372036854775807s"), s("infs"), s("nan"), s("-9223372036854775808"),
+        s("2024-02-29T23:59:59.5+02:00"), s("99999999999999999h"), s("^(a+)+$"), s("("), s("18446744073709551616"), s("1.5"), s("-0"), s("0x10"),
+        Value::Bytes(Arc::new(vec![])), Value::Bytes(Arc::new(vec![0xff, 0xfe])), Value::Bytes(Arc::new("é".as_bytes().to_vec())),
+        Value::Bool(true), Value::Bool(false), Value::Null,
+        Value::List(Arc::new(vec![])), Value::List(Arc::new(vec![Value::Int(1), Value::Int(2), Value::Int(3)])), Value::List(Arc::new(vec![s("é"), Value::Null])),
+        Value::Function(Arc::new("size".into()), None),
+    ];
+    for _ in 0..(if thorough { 24 } else { 8 }) {
+        pool.push(gen::gen_any_value(&mut rng, 2, true));
+    }
+    for d in [chrono::Duration::MAX, chrono::Duration::MIN, chrono::Duration::nanoseconds(-1), chrono::Duration::seconds(5400)] {
+        pool.push(Value::Duration(d));
+    }
+    pool.push(Value::Timestamp(chrono::DateTime::<chrono::Utc>::MAX_UTC.fixed_offset()));
+    pool.push(Value::Timestamp(chrono::DateTime::<chrono::Utc>::MIN_UTC.fixed_offset()));
+    pool.push(Value::Timestamp(chrono::DateTime::parse_from_rfc3339("2024-02-29T23:59:59.5+02:00").unwrap()));
+    let unary: Vec<String> = {
+        let mut v: Vec<String> = ["-a", "!a", "a[0]", "a[1]", "a[-1]", "a.k", "has(a.k)", "[a]", "{a: 1}", "{1: a}", "a ? 1 : 2", "a.all(x, x)", "a.exists(x, true)",
+            "a.exists_one(x, x == x)", "a.map(x, x)", "a.filter(x, true)", "a.map(x, true, x)", "a()", "a.a()", "Msg{f: a}", "t(1, a)", "va(a)", "m0(a)", "a.m0()", "idf(a)"]
+            .iter().map(|s| s.to_string()).collect();
+        for f in ["size", "string", "bytes", "double", "int", "uint", "duration", "timestamp", "min", "max", "getFullYear", "getMonth", "getDayOfYear", "getDayOfMonth",
+                  "getDate", "getDayOfWeek", "getHours", "getMinutes", "getSeconds", "getMilliseconds", "fi", "fu", "fd", "fs", "fy", "fb", "fl"] {
+            v.push(format!("{}(a)", f));
+            v.push(format!("a.{}()", f));
+        }
+        v
+    };
+    let binary: Vec<String> = {
+        let mut v: Vec<String> = ["a + b", "a - b", "a * b", "a / b", "a % b", "a == b", "a != b", "a < b", "a <= b", "a > b", "a >= b", "a in b", "a && b", "a || b",
+            "a[b]", "{a: b}", "[a, b]", "a ? b : a", "a.all(x, b)", "a.map(x, x + b)", "a.filter(x, x == b)", "a.exists(x, x in b)", "b.map(a, a)", "h2(a, b)", "a.m1(b)", "min(a, b)", "max(a, b)",
+            "msi(a, b)", "a.msi(b)", "fis(a, b)"]
+            .iter().map(|s| s.to_string()).collect();
+        for f in ["contains", "startsWith", "endsWith", "matches"] {
+            v.push(format!("{}(a, b)", f));
+            v.push(format!("a.{}(b)", f));
+        }
+        v
+    };
+    let mut st = Stats { cases: 0, compile_fail: 0, panics: 0 };
+    let mut id = 0;
+    let mut emit = |src: &str, vars: &[(String, Value)], st: &mut Stats, out: &mut dyn Write| {
+        id += 1;
+        match case_for(id, src, vars) {
+            Some(c) => {
+                if c["out"]["k"] == "panic" {
+                    st.panics += 1;
+                }
+                writeln!(out, "{}", c).unwrap();
+                st.cases += 1;
+            }
+            None => st.compile_fail += 1,
+        }
+    };
+    for a in &pool {
+        let vars = vec![("a".to_string(), a.clone())];
+        for src in &unary {
+            emit(src, &vars, &mut st, out);
+        }
+    }
+    for a in &pool {
+        for b in &pool {
+            // quick tier: every pair for a seeded third of the binary forms
+            let vars = vec![("a".to_string(), a.clone()), ("b".to_string(), b.clone())];
+            for src in &binary {
+                if !thorough && !rng.chance(1, 4) {
+                    continue;
+                }
+                emit(src, &vars, &mut st, out);
+            }
+        }
+    }
+    st
+}
